@@ -118,6 +118,9 @@ func TestC08(t *testing.T) {
 		sp := c08Spec{Kind: "churn", Fam: "star", Sock: []string{"star", "xstar"}[i%2], Shape: []int{rnd.Intn(4)}, Steps: 1500 + rnd.Intn(2500), Procs: procs[rnd.Intn(len(procs))]}
 		cases = append(cases, mon.CaseSpec{Name: "churn-" + sp.Sock, Spec: sp})
 	}
+	for i := 0; i < r.Pick(12, 400); i++ {
+		cases = append(cases, mon.CaseSpec{Name: "late-xbus", Spec: c08Spec{Kind: "late", Fam: "bus", Sock: "xbus", Shape: []int{rnd.Intn(3)}}})
+	}
 	for i := 0; i < r.Pick(48, 1200); i++ {
 		sock := []string{"bus", "xbus", "star", "xstar"}[i%4]
 		sp := c08Spec{Kind: "stalled", Fam: strings.TrimPrefix(sock, "x"), Sock: sock, Shape: []int{rnd.Intn(3), rnd.Intn(3)}, Steps: i / 4}
@@ -133,7 +136,9 @@ func TestC08(t *testing.T) {
 			old := runtime.GOMAXPROCS(sp.Procs)
 			c.Cleanup(func() { runtime.GOMAXPROCS(old) })
 		}
-		if sp.Kind == "stalled" {
+		if sp.Kind == "late" {
+			c08Late(c, sp)
+		} else if sp.Kind == "stalled" {
 			c08Stalled(c, sp)
 		} else if sp.Kind == "resize" {
 			c08Resize(c, sp)
